@@ -30,6 +30,74 @@ def grid_states():
     return [(7, "%x,%x" % (x, y)) for x in GRID for y in GRID]
 
 
+def combine_with_result(text, out_items):
+    """`out_items` (the optimized form of `text`) followed by `text` with its references to the initial stack shifted past what the first
+    part leaves; None when the block is not of the simple pushing kind"""
+    import vocab
+    first, net = [], 0
+    for name, value in out_items:
+        if name == "PUSH":
+            first.append(gen.push(int(str(value), 16))); net += 1
+        elif name == "PUSH0":
+            first.append("PUSH0"); net += 1
+        elif name.startswith("PUSH") or name in ("tag", "JUMPDEST"):
+            return None
+        elif name.startswith("DUP"):
+            first.append(name); net += 1
+        elif name.startswith("SWAP"):
+            first.append(name)
+        elif name == "POP":
+            first.append(name); net -= 1
+        elif name in vocab.UN or name in vocab.ENV1:
+            first.append(name)
+        elif name in vocab.BIN:
+            first.append(name); net -= 1
+        elif name in vocab.TER:
+            first.append(name); net -= 2
+        elif name in vocab.ENV0:
+            first.append(name); net += 1
+        else:
+            return None
+    if net < 1:
+        return None
+    toks, out, d, i = text.split(), [], 0, 0
+    while i < len(toks):
+        t = toks[i]
+        i += 1
+        if t.startswith("PUSH") and t != "PUSH0":
+            if i >= len(toks):
+                return None
+            out += [t, toks[i]]; i += 1; d += 1
+        elif t == "PUSH0" or t in vocab.ENV0:
+            out.append(t); d += 1
+        elif t.startswith("DUP") and t[3:].isdigit():
+            k = int(t[3:])
+            k2 = k + net if k > d else k
+            if k2 > 16:
+                return None
+            out.append("DUP%d" % k2); d += 1
+        elif t.startswith("SWAP") and t[4:].isdigit():
+            k = int(t[4:])
+            if k >= d:
+                return None          # would move an initial word
+            out.append(t)
+        elif t in vocab.UN or t in vocab.ENV1:
+            if d < 1:
+                return None
+            out.append(t)
+        elif t in vocab.BIN:
+            if d < 2:
+                return None
+            out.append(t); d -= 1
+        elif t in vocab.TER:
+            if d < 3:
+                return None
+            out.append(t); d -= 2
+        else:
+            return None
+    return " ".join(first + out)
+
+
 def run(tier):
     sd = common.seed()
     rng = random.Random(sd * 104729 + 3)
@@ -134,6 +202,19 @@ def run(tier):
     corpus = gen.rule_corpus()
     c["rule-neighbourhood-blocks"] = len(corpus)
     runs += e2e.run_optimize(corpus, [["-greedy"]] if tier == "quick" else [["-greedy"], ["-greedy", "-size"], ["-greedy", "-length"]], assign="all")
+    # second pass: the block a rule produced, followed by the block itself (stack references shifted): when the rule fires again its result
+    # already exists in the block, which is a branch of its own in every rule ("new_exist")
+    second = []
+    for text, opts, e, st in runs:
+        if e is not None and opts == ["-greedy"] and e.get("out_items") and e.get("out_tokens") != e.get("in_tokens"):
+            comb = combine_with_result(text, e["out_items"])
+            if comb:
+                second.append(comb)
+    second = list(dict.fromkeys(second))
+    if tier == "quick" and len(second) > 400:
+        second = rng.sample(second, 400)
+    c["rule-result-already-present-blocks"] = len(second)
+    runs += e2e.run_optimize(second, [["-greedy"]], assign="all")
     bpairs = []
     for text, opts, e, st in runs:
         if e is None:
